@@ -443,6 +443,7 @@ Proof using All.
   - reflexivity.
   - constructor.
   - discriminate.
+  - constructor.
 Qed.
 End UpperChild.
 
@@ -594,12 +595,12 @@ Lemma dirup_block s s' U (pp : path) (nm : name) md pn n_old rest m x ch :
   Coherent s ->
   upper s = Some U -> tget U pp = Some (Dir m x ch) -> afind nm ch = None ->
   upper s' = Some (tupd pp (chmap (aset nm (Dir md [] []))) U) -> lowers s' = lowers s ->
-  nget pp (root s) = Some pn -> n_loaded pn = true -> afind nm (n_ch pn) = Some n_old ->
+  nget pp (root s) = Some pn -> n_loaded pn = true -> afind nm (n_ch pn) = Some n_old -> first_dir (n_reals n_old) = true ->
   lstack (shp s) (List.length (lowers s)) pp = 0%nat :: rest ->
   root s' = nupd (pp ++ [nm]) (add_upper (mkReal 0 true (pp ++ [nm]) false false true) false) (root s) ->
   Coherent s'.
 Proof.
-  intros (Hu0 & Hw & HC) Hu Hd Hnone Hu' Hl Hget Hld Hold Hst Hroot.
+  intros (Hu0 & Hw & HC) Hu Hd Hnone Hu' Hl Hget Hld Hold Hfd Hst Hroot.
   set (c := Dir md [] []). set (ri := mkReal 0 true (pp ++ [nm]) false false true) in *.
   assert (HG : forall k, k <> nm -> afind k (aset nm c ch) = afind k ch).
   { intros k Hk. rewrite afind_aset. apply String.eqb_neq in Hk. rewrite Hk. reflexivity. }
@@ -679,6 +680,8 @@ Proof.
         -- apply Nold.
         -- intros Hl'. destruct (ok_ld _ _ _ _ Nold Hl') as (_ & _ & C). split; [reflexivity|]. split; [reflexivity|].
            intros k. rewrite <- Lnew, Hkids. apply C.
+        -- cbn [tl]. pose proof (ok_tl _ _ _ _ Nold) as Ht. destruct (n_reals n_old) as [|r2 rs2]; [constructor|].
+           cbn [first_dir tl] in *. constructor; assumption.
       * cbn [add_upper n_ch]. intros k c' Hk'.
         apply (CohT_below Sh Sh' nl q).
         -- intros i r Hr. destruct i as [|j]; [apply Hbelow0; exact Hr|apply Hlow].
@@ -2749,4 +2752,202 @@ Proof.
            intros n. reflexivity.
     + unfold bind at 1. cbn [ret]. apply (IH s U m x ch HU Etg); [|exact Hnd'].
       intros k2 c2 Hin. apply Hall. right. exact Hin.
+Qed.
+
+
+Lemma lhc_no_err s (p : path) rs (nm : name) e :
+  Forall (fun r => rgood (shp s) p r /\ (r_upper r = true \/ r_dir r = true)) rs -> lower_has_child s rs nm <> Err e.
+Proof.
+  induction rs as [|a l IH]; intros F; cbn [lower_has_child]; [discriminate|]. inversion F as [|? ? [Ha Hd] F']; subst.
+  destruct (r_upper a || r_wh a) eqn:E1; [apply IH; exact F'|]. apply orb_false_iff in E1. destruct E1 as [E1 _].
+  destruct Hd as [Hd|Hd]; [congruence|].
+  destruct Ha as (Hp & _ & Hs). rewrite real_tree_ent, Hp. unfold shp in Hs.
+  destruct (ent s (r_layer a) p) as [t|]; [|apply IH; exact F'].
+  cbn [option_map] in Hs. destruct t; cbn [sh] in Hs; try (destruct Hs as (_ & Hd' & _); congruence).
+  destruct (afind nm ch); [discriminate|apply IH; exact F'].
+Qed.
+Lemma rm_post_emptied (pp : path) (nm : name) s0 s3 U0 D c0 pn0 mq xq chq :
+  Coherent s0 -> upper s0 = Some U0 ->
+  nget (pp ++ [nm]) (root s0) = Some c0 -> nget pp (root s0) = Some pn0 -> in_upper c0 = true ->
+  upper s3 = Some (tupd (pp ++ [nm]) (chmap (dels D)) U0) -> lowers s3 = lowers s0 -> root s3 = nupd (pp ++ [nm]) (delsn D) (root s0) ->
+  tget U0 (pp ++ [nm]) = Some (Dir mq xq chq) -> dels D chq = [] ->
+  Coherent (snd (rm_post pp nm true s3)).
+Proof.
+  intros HC0 HU0 Hq0 Hg0 Hiu Hu3 Hl3 Hr3 Etq Hemp.
+  destruct (rm_post pp nm true s3) as [r s'] eqn:Hrun. cbn [snd]. unfold rm_post in Hrun.
+  pose proof (parent_in_upper s0 pp nm pn0 c0 HC0 Hg0 Hq0 Hiu) as Hpu.
+  set (pn3 := Node (n_reals pn0) (n_wh pn0) (n_loaded pn0) (amap nm (delsn D) (n_ch pn0))) in *.
+  assert (Hg3 : nget pp (root s3) = Some pn3) by (rewrite Hr3, nupd_app, nget_nupd, Hg0; reflexivity).
+  assert (Hq3 : nget (pp ++ [nm]) (root s3) = Some (delsn D c0)) by (rewrite Hr3, nget_nupd, Hq0; reflexivity).
+  unfold bind at 1 in Hrun. unfold copy_node_up in Hrun. unfold bind at 1 in Hrun. unfold get_node at 1 in Hrun. rewrite Hg3 in Hrun.
+  change (in_upper pn3) with (in_upper pn0) in Hrun. rewrite Hpu in Hrun. cbn [ret] in Hrun.
+  unfold bind at 1 in Hrun. unfold get_node at 1 in Hrun. rewrite Hq3 in Hrun.
+  unfold bind at 1 in Hrun. unfold get_node at 1 in Hrun. rewrite Hg3 in Hrun.
+  unfold bind at 1 in Hrun.
+  change (upper_only (delsn D c0)) with (upper_only c0) in Hrun. change (n_reals pn3) with (n_reals pn0) in Hrun.
+  pose proof HC0 as (_ & _ & HCT0). pose proof (HCT0 _ _ Hg0) as Np. cbn [app] in Np.
+  assert (Hlhc : lower_has_child s3 (n_reals pn0) nm = lower_has_child s0 (n_reals pn0) nm).
+  { apply lhc_lowers; [exact Hl3|]. eapply Forall_impl; [|exact (ok_reals _ _ _ _ Np)]. intros a (_ & H & _). exact H. }
+  assert (Hup0 : upper_at' pp s0) by (intros n' Hn'; rewrite Hg0 in Hn'; inversion Hn'; subst; exact Hpu).
+  assert (Hok : forall e, h_rmdir pp nm (tupd (pp ++ [nm]) (chmap (dels D)) U0) <> Err e).
+  { intros e. rewrite (tget_snoc U0 pp nm) in Etq. destruct (tget U0 pp) as [[m x chp| | |]|] eqn:Etp; try discriminate.
+    unfold h_rmdir. rewrite tupd_snoc, tget_tupd, Etp. cbn [option_map chmap]. rewrite afind_amap, Etq. cbn [option_map chmap]. rewrite Hemp. discriminate. }
+  assert (Fin : forall need0, (need0 = false -> upper_only c0 = true /\ lower_has_child s0 (n_reals pn0) nm = Ok false) ->
+                rm_tail2 pp nm true (delsn D c0) pn3 need0 s3 = (r, s') -> Coherent s').
+  { intros need0 Hn0 Hr.
+    destruct (rm_tail2_coherent pp nm true s0 s3 U0 (chmap (dels D)) (delsn D) c0 pn0 need0 r s' HC0 HU0 Hq0 Hg0 Hup0) as [[_ [e He]]|H]; auto.
+    - intros H. congruence.
+    - exfalso. exact (Hok e He). }
+  destruct (upper_only c0) eqn:Euo.
+  - cbv beta in Hrun. rewrite Hlhc in Hrun. destruct (lower_has_child s0 (n_reals pn0) nm) as [b|e] eqn:Elhc.
+    + apply (Fin b); [|exact Hrun]. intros ->. auto.
+    + exfalso. apply (lhc_no_err s0 pp (n_reals pn0) nm e); [|exact Elhc].
+      pose proof (ok_reals _ _ _ _ Np) as Hr. pose proof (ok_tl _ _ _ _ Np) as Ht. unfold in_upper in Hpu.
+      destruct (n_reals pn0) as [|a l]; [discriminate|]. cbn [tl] in Ht. inversion Hr; subst.
+      constructor; [split; [assumption|left; exact Hpu]|]. rewrite Forall_forall in *. intros r0 Hr0. split; [auto|right; auto].
+  - cbn [ret] in Hrun. apply (Fin true); [discriminate|exact Hrun].
+Qed.
+
+Lemma load_dir_child_facts (pp : path) (nm : name) s pn c r s1 :
+  Coherent s -> nget pp (root s) = Some pn -> nget (pp ++ [nm]) (root s) = Some c -> load_dir (pp ++ [nm]) s = (r, s1) ->
+  Coherent s1 /\
+  (r = Ok tt -> exists pn1 n1, nget pp (root s1) = Some pn1 /\ n_wh pn1 = n_wh pn /\
+                               nget (pp ++ [nm]) (root s1) = Some n1 /\ n_wh n1 = n_wh c /\ n_loaded n1 = true).
+Proof.
+  intros HC Hg Hq Hrun. pose proof (cpres_load_dir (pp ++ [nm]) s HC) as HC1. rewrite Hrun in HC1. cbn [snd] in HC1.
+  split; [exact HC1|]. intros ->.
+  unfold load_dir, bind, get_node in Hrun. rewrite Hq in Hrun. destruct (n_loaded c) eqn:El.
+  - inversion Hrun; subst. exists pn, c. auto.
+  - destruct (scan_children s c) as [cs|e] eqn:Es; [|discriminate]. unfold mod_node in Hrun. inversion Hrun; subst. cbn [root].
+    exists (Node (n_reals pn) (n_wh pn) (n_loaded pn) (amap nm (load1 s) (n_ch pn))), (load1 s c).
+    split; [rewrite nupd_app, nget_nupd, Hg; reflexivity|]. split; [reflexivity|].
+    split; [rewrite nget_nupd, Hq; reflexivity|]. unfold load1. rewrite El, Es. cbn [set_loaded n_wh n_loaded]. auto.
+Qed.
+
+Definition rmdir_mid (q : path) : M unit :=
+  load_dir q ;;;
+  n1 <- get_node q ;;
+  st <- stat_node n1 ;;
+  if negb (is_dirT st) then fail ENOTDIR else
+  let count := List.length (filter (fun kv => negb (n_wh (snd kv))) (n_ch n1)) in
+  let whiteouts := List.length (filter (fun kv => n_wh (snd kv)) (n_ch n1)) in
+  if negb (Nat.eqb count 0) then fail ENOTEMPTY else
+  if negb (Nat.eqb whiteouts 0) && in_upper n1 then empty_node_directory q else ret tt.
+
+Lemma rmdir_mid_spec (pp : path) (nm : name) s2 pn2 c rm s3 :
+  Coherent s2 -> nget pp (root s2) = Some pn2 -> n_wh pn2 = false -> nget (pp ++ [nm]) (root s2) = Some c ->
+  rmdir_mid (pp ++ [nm]) s2 = (rm, s3) ->
+  (Coherent s3 /\ (rm = Ok tt -> exists pn3 c3, nget pp (root s3) = Some pn3 /\ n_wh pn3 = false /\ nget (pp ++ [nm]) (root s3) = Some c3)) \/
+  (rm = Ok tt /\ exists s0 U0 D c0 pn0 mq xq chq,
+     Coherent s0 /\ upper s0 = Some U0 /\ nget (pp ++ [nm]) (root s0) = Some c0 /\ nget pp (root s0) = Some pn0 /\ in_upper c0 = true /\
+     upper s3 = Some (tupd (pp ++ [nm]) (chmap (dels D)) U0) /\ lowers s3 = lowers s0 /\ root s3 = nupd (pp ++ [nm]) (delsn D) (root s0) /\
+     tget U0 (pp ++ [nm]) = Some (Dir mq xq chq) /\ dels D chq = []).
+Proof.
+  intros HC2 Hg2 Hw2 Hqc Hrun. unfold rmdir_mid in Hrun. set (q := pp ++ [nm]) in *.
+  unfold bind at 1 in Hrun. destruct (load_dir q s2) as [rl s2a] eqn:El.
+  destruct (load_dir_child_facts pp nm s2 pn2 c rl s2a HC2 Hg2 Hqc El) as (HCa & Hfa).
+  destruct rl as [[]|e]; [|left; inversion Hrun; subst; split; [exact HCa|discriminate]].
+  destruct (Hfa eq_refl) as (pn1 & n1 & Hg1 & Hw1 & Hq1 & Hwn1 & Hld1). fold q in Hq1.
+  assert (Plain : forall e, (Err e, s2a) = (rm, s3) ->
+    (Coherent s3 /\ (rm = Ok tt -> exists pn3 c3, nget pp (root s3) = Some pn3 /\ n_wh pn3 = false /\ nget q (root s3) = Some c3)) \/
+    (rm = Ok tt /\ exists s0 U0 D c0 pn0 mq xq chq,
+     Coherent s0 /\ upper s0 = Some U0 /\ nget q (root s0) = Some c0 /\ nget pp (root s0) = Some pn0 /\ in_upper c0 = true /\
+     upper s3 = Some (tupd q (chmap (dels D)) U0) /\ lowers s3 = lowers s0 /\ root s3 = nupd q (delsn D) (root s0) /\
+     tget U0 q = Some (Dir mq xq chq) /\ dels D chq = [])).
+  { intros e H. inversion H; subst. left. split; [exact HCa|discriminate]. }
+  unfold bind at 1 in Hrun. unfold get_node at 1 in Hrun. rewrite Hq1 in Hrun.
+  unfold bind at 1 in Hrun. unfold stat_node at 1 in Hrun. destruct (node_stat s2a n1) as [st|] eqn:Est; [|exact (Plain _ Hrun)].
+  destruct (is_dirT st) eqn:Edir; cbn [negb] in Hrun; [|exact (Plain _ Hrun)].
+  cbv zeta in Hrun.
+  destruct (Nat.eqb (List.length (filter (fun kv : name * node => negb (n_wh (snd kv))) (n_ch n1))) 0) eqn:Ecnt; cbn [negb] in Hrun; [|exact (Plain _ Hrun)].
+  apply Nat.eqb_eq in Ecnt.
+  destruct (negb (Nat.eqb (List.length (filter (fun kv : name * node => n_wh (snd kv)) (n_ch n1))) 0) && in_upper n1) eqn:Ewi.
+  2:{ cbn [ret] in Hrun. inversion Hrun; subst. left. split; [exact HCa|]. intros _. exists pn1, n1. rewrite Hw1. auto. }
+  apply andb_true_iff in Ewi. destruct Ewi as [_ Hiu].
+  right.
+  pose proof HCa as ([U0 HU] & _ & HCT). pose proof (HCT _ _ Hq1) as Nn. cbn [app] in Nn.
+  destruct (first_good_stat s2a _ _ n1 Nn) as (r1 & rs1 & t & Er1 & Etq & Hns & _). rewrite Est in Hns. inversion Hns; subst t. clear Hns.
+  pose proof Hiu as Hiu'. unfold in_upper in Hiu'. rewrite Er1 in Hiu'.
+  destruct (first_upper_stack s2a _ n1 r1 rs1 Nn Er1 Hiu') as (Hl0 & Hp0 & rest & Hstq).
+  rewrite Hl0 in Etq. unfold ent in Etq. cbn [get_layer] in Etq. rewrite HU in Etq.
+  destruct st as [mq xq chq| | |]; try discriminate.
+  set (D := map fst (filter (fun kv : name * node => in_upper (snd kv)) (n_ch n1))).
+  assert (Hchild : forall (k : name) (c' : node), afind k (n_ch n1) = Some c' -> NodeOK (shp s2a) (List.length (lowers s2a)) (q ++ [k]) c').
+  { intros k c' Hk. pose proof (HCT (q ++ [k]) c' (nget_snoc q k (root s2a) n1 c' Hq1 Hk)) as H. exact H. }
+  assert (Hall : forall (k : name) (c' : node), In (k, c') (n_ch n1) -> in_upper c' = true -> n_wh c' = true /\ afind k chq = Some Wh).
+  { intros k c' Hin Hiuc.
+    pose proof (afind_In_nodup k c' (n_ch n1) (ok_nodup _ _ _ _ Nn) Hin) as Hk. pose proof (Hchild k c' Hk) as Nc'.
+    assert (Hwc : n_wh c' = true).
+    { pose proof (filter_len0 (fun kv : name * node => negb (n_wh (snd kv))) (n_ch n1) (k, c') Ecnt Hin) as H. cbn [snd] in H.
+      destruct (n_wh c'); [reflexivity|discriminate]. }
+    split; [exact Hwc|].
+    destruct (first_good_stat s2a _ _ c' Nc') as (rc & rcs & tc & Erc & Etc' & _ & Hwtc & _).
+    unfold in_upper in Hiuc. rewrite Erc in Hiuc.
+    destruct (first_upper_stack s2a _ c' rc rcs Nc' Erc Hiuc) as (Hl0' & _).
+    rewrite Hl0' in Etc'. unfold ent in Etc'. cbn [get_layer] in Etc'. rewrite HU, (tget_snoc U0 q k), Etq in Etc'.
+    rewrite Etc'. f_equal. pose proof (ok_wh _ _ _ _ Nc') as Hwh. rewrite Erc in Hwh. cbn [first_wh] in Hwh.
+    rewrite Hwc, Hwtc in Hwh. destruct tc; try discriminate. reflexivity. }
+  assert (Hemp : dels D chq = []).
+  { apply all_none_nil. assert (HH : forall k : name, afind k (dels D chq) = None); [|exact HH]. intros k. rewrite afind_dels. destruct (existsb (String.eqb k) D) eqn:Ex; [reflexivity|].
+    destruct (afind k chq) as [t|] eqn:Ek; [exfalso|reflexivity].
+    assert (Hpk : present (shp s2a) (q ++ [k]) 0%nat = true).
+    { unfold present, shp, ent. cbn [get_layer]. rewrite HU, (tget_snoc U0 q k), Etq, Ek. reflexivity. }
+    pose proof (sh_dir_of_tget s2a U0 q mq xq chq HU Etq) as Hqd.
+    pose proof (kids_old (shp s2a) (shp s2a) (List.length (lowers s2a)) q k (fun _ _ _ => eq_refl) (fun j p' => eq_refl) rest _ Hstq Hqd) as Ko.
+    rewrite Hpk in Ko.
+    destruct (ok_ld _ _ _ _ Nn Hld1) as (_ & _ & Hkids).
+    destruct (afind k (n_ch n1)) as [c'|] eqn:Ec'.
+    2:{ apply Hkids in Ec'. rewrite Ko in Ec'. discriminate. }
+    pose proof (Hchild k c' Ec') as Nc'.
+    pose proof (ok_hd _ _ _ _ Nc') as Hh. rewrite lstack_snoc, Ko in Hh.
+    pose proof (ok_ne _ _ _ _ Nc') as Hne. pose proof (ok_reals _ _ _ _ Nc') as Hrs.
+    destruct (n_reals c') as [|rc rcs] eqn:Erc; [contradiction|]. cbn in Hh. inversion Hh as [Hl].
+    pose proof (Forall_inv Hrs) as (_ & Hu & _). rewrite Hl in Hu. cbn in Hu.
+    assert (Hin : existsb (String.eqb k) D = true).
+    { apply existsb_exists. exists k. split; [|apply String.eqb_refl]. unfold D. apply in_map_iff. exists (k, c'). split; [reflexivity|].
+      apply filter_In. split; [apply afind_In; exact Ec'|]. cbn [snd]. unfold in_upper. rewrite Erc. exact Hu. }
+    congruence. }
+  destruct (empty_children_run q (n_ch n1) s2a U0 mq xq chq HU Etq Hall (ok_nodup _ _ _ _ Nn)) as (s3' & Hrun3 & Hu3 & Hl3 & Hr3).
+  unfold empty_node_directory in Hrun. unfold bind at 1 in Hrun. unfold get_node at 1 in Hrun. rewrite Hq1 in Hrun.
+  unfold bind at 1 in Hrun. unfold stat_node at 1 in Hrun. rewrite Est in Hrun. cbn [is_dirT negb] in Hrun.
+  unfold bind at 1 in Hrun. unfold first_real in Hrun. rewrite Er1 in Hrun. cbn [ret] in Hrun. rewrite Hiu' in Hrun. cbn [negb] in Hrun.
+  rewrite Hl0, Hp0, Hrun3 in Hrun. inversion Hrun; subst rm s3'. split; [reflexivity|].
+  exists s2a, U0, D, n1, pn1, mq, xq, chq. fold D in Hu3, Hr3.
+  split; [exact HCa|]. split; [exact HU|]. split; [exact Hq1|]. split; [exact Hg1|]. split; [exact Hiu|].
+  split; [exact Hu3|]. split; [exact Hl3|]. split; [exact Hr3|]. split; [exact Etq|exact Hemp].
+Qed.
+
+Lemma cpres_do_rm (pp : path) (nm : name) dir : cpres (do_rm pp nm dir).
+Proof.
+  intros s HC. destruct (do_rm pp nm dir s) as [r s'] eqn:Hrun. cbn [snd].
+  unfold do_rm in Hrun.
+  pose proof HC as ([u Hu] & _).
+  unfold bind at 1 in Hrun. unfold need_upper in Hrun. unfold bind at 1 in Hrun. unfold has_upper in Hrun. rewrite Hu in Hrun. cbn [ret] in Hrun.
+  unfold bind at 1 in Hrun. destruct (lookup_node pp None s) as [r0 s1] eqn:E0.
+  pose proof (cpres_lookup_node pp None s HC) as HC1. rewrite E0 in HC1. cbn [snd] in HC1.
+  destruct r0 as [q0|e]; [|inversion Hrun; subst; exact HC1].
+  unfold bind at 1 in Hrun. unfold get_node at 1 in Hrun. destruct (nget pp (root s1)) as [pn|] eqn:Hg; [|inversion Hrun; subst; exact HC1].
+  destruct (n_wh pn) eqn:Ew; [inversion Hrun; subst; exact HC1|].
+  unfold bind at 1 in Hrun. destruct (lookup_node pp (Some nm) s1) as [rq s2] eqn:Eq.
+  pose proof (cpres_lookup_node pp (Some nm) s1 HC1) as HC2. rewrite Eq in HC2. cbn [snd] in HC2.
+  destruct rq as [q|e]; [|inversion Hrun; subst; exact HC2].
+  destruct (lookup_some_spec pp nm s1 pn q s2 HC1 Hg Ew Eq) as (_ & -> & pn2 & c & Hg2 & Hw2 & Hc).
+  pose proof (nget_snoc pp nm (root s2) pn2 c Hg2 Hc) as Hqc.
+  unfold bind at 1 in Hrun. unfold get_node at 1 in Hrun. rewrite Hqc in Hrun.
+  destruct (n_wh c) eqn:Ewc; [inversion Hrun; subst; exact HC2|].
+  assert (Hrun' : bind (if dir then rmdir_mid (pp ++ [nm]) else ret tt) (fun _ => rm_post pp nm dir) s2 = (r, s')) by exact Hrun.
+  clear Hrun. unfold bind at 1 in Hrun'. destruct dir.
+  - destruct (rmdir_mid (pp ++ [nm]) s2) as [rm s3] eqn:Em.
+    destruct (rmdir_mid_spec pp nm s2 pn2 c rm s3 HC2 Hg2 Hw2 Hqc Em) as [[HC3 Hf]|[-> Hf]].
+    + destruct rm as [[]|e]; [|inversion Hrun'; subst; exact HC3].
+      destruct (Hf eq_refl) as (pn3 & c3 & Hg3 & Hw3 & Hq3).
+      pose proof (rm_post_plain pp nm true s3 pn3 c3 HC3 Hg3 Hw3 Hq3) as H. rewrite Hrun' in H. exact H.
+    + destruct Hf as (s0 & U0 & D & c0 & pn0 & mq & xq & chq & A1 & A2 & A3 & A4 & A5 & A6 & A7 & A8 & A9 & A10).
+      pose proof (rm_post_emptied pp nm s0 s3 U0 D c0 pn0 mq xq chq A1 A2 A3 A4 A5 A6 A7 A8 A9 A10) as H. rewrite Hrun' in H. exact H.
+  - cbn [ret] in Hrun'. pose proof (rm_post_plain pp nm false s2 pn2 c HC2 Hg2 Hw2 Hqc) as H. rewrite Hrun' in H. exact H.
+Qed.
+Lemma cpres_rmdir p : cpres (step (ORmdir p)).
+Proof.
+  cbn [step]. apply cpres_with_parent. intros pp nm.
+  apply cpres_bind; [apply cpres_do_rm|]. intros _. apply cpres_ret.
 Qed.
